@@ -117,7 +117,20 @@ macro_rules! eq_via_partial_eq {
         fn json_value(&self) -> serde_json::Value { to_json(self) }
     })* };
 }
-eq_via_partial_eq!(String, i32, bool, SafeLong, Uuid, ResourceIdentifier, BearerToken, Bytes);
+eq_via_partial_eq!(String, i32, bool, SafeLong, Uuid, ResourceIdentifier, BearerToken);
+
+impl SimEq for Bytes {
+    fn same(&self, o: &Self) -> bool {
+        self == o
+    }
+    // PLAIN binary: padded standard-alphabet Base64 (the harness's own encoder)
+    fn plain_ok(&self, decoded: &[String]) -> bool {
+        decoded.len() == 1 && decoded[0] == ir::b64(self)
+    }
+    fn json_value(&self) -> serde_json::Value {
+        serde_json::Value::String(ir::b64(self))
+    }
+}
 
 impl SimEq for () {
     fn same(&self, _: &Self) -> bool {
@@ -366,6 +379,8 @@ pub struct GenKnobs {
     pub max_str: u64,
     pub doc_budget: i64,
     pub header_nonascii: bool,
+    /// string bodies of 50-80 kB now and then (beyond what any small default limit would allow)
+    pub big_body: bool,
 }
 
 pub struct GenCx<'a> {
@@ -389,6 +404,7 @@ impl GenKnobs {
             max_str: *t.pick(&[4u64, 16, 16, 64, 300, 300, 2500]),
             doc_budget: *t.pick(&[4i64, 12, 12, 40, 40, 150]),
             header_nonascii: t.chance(1, 4),
+            big_body: false,
         }
     }
 
@@ -451,6 +467,7 @@ impl Gen for String {
                         .collect()
                 }
             }
+            Kind::Body if c.k.big_body && t.chance(1, 3) => "y".repeat(52_000 + t.draw(30_000) as usize),
             Kind::Path | Kind::Query if t.chance(1, 12) => {
                 // values with a meaning of their own in a URI
                 t.pick(&[".", "..", "...", "%2E", "%2e%2E", "%2F", "%", "%25", "%zz", "+", " ", "a+b c", "a/b", "/", "//", "?", "#", "a=b&c=d", "&", "=", ";", "a;b=c", "\\", "%00", "\u{0}"])
@@ -784,12 +801,17 @@ pub struct Record {
     pub args: Vec<(&'static str, Box<dyn DynVal>)>,
     pub ret: Option<Box<dyn DynVal>>,
     pub ctx_probe: Option<String>,
+    /// the handler was scripted to refuse with a service error of its own
+    pub refused: bool,
 }
 
 #[derive(Default)]
 pub struct HandlerCore {
     /// scripted return values, per endpoint, FIFO
     pub script: BTreeMap<usize, VecDeque<Box<dyn DynVal>>>,
+    /// endpoints whose next invocation refuses with an error that carries the given text as an
+    /// *unsafe* parameter (what a handler does that reports a non-safe argument back)
+    pub refuse: BTreeMap<usize, String>,
     pub records: Vec<Record>,
 }
 
@@ -815,6 +837,10 @@ impl Handler {
             .entry(ep)
             .or_default()
             .push_back(ret);
+    }
+
+    pub fn refuse_next(&self, ep: usize, unsafe_text: String) {
+        self.core.lock().unwrap().refuse.insert(ep, unsafe_text);
     }
 
     pub fn unscript(&self, ep: usize) {
@@ -850,12 +876,20 @@ impl Handler {
             )
         });
         self.ctx.count("probe.handler_invoked");
+        let refuse = core.refuse.remove(&ep);
         core.records.push(Record {
             ep,
             args,
             ret: ret.as_ref().map(|r| r.clone_box()),
             ctx_probe,
+            refused: refuse.is_some(),
         });
+        if let Some(text) = refuse {
+            self.ctx.count("probe.handler_refused_with_unsafe_param");
+            return Err(Error::service_safe("refused by the handler", conjure_error::InvalidArgument::new())
+                .with_unsafe_param("rejectedValue", text)
+                .with_safe_param("reason", "scripted"));
+        }
         match ret {
             Some(r) => Ok(r),
             None => Err(Error::internal_safe("simulation handler has no scripted return value")),
